@@ -26,6 +26,7 @@ theorem projD_append (d : Nat) (l l' : List AEv) : projD d (l ++ l') = projD d l
     | call op => simpa [projD] using ih
     | ret op v => simpa [projD] using ih
     | tl th e => simpa [projD] using ih
+    | quiet => simpa [projD] using ih
 
 theorem dispatches_append (l l' : List AEv) : dispatches (l ++ l') = dispatches l + dispatches l' := by
   induction l with
@@ -36,6 +37,7 @@ theorem dispatches_append (l l' : List AEv) : dispatches (l ++ l') = dispatches 
     | call op => simpa [dispatches] using ih
     | sys th d e => simpa [dispatches] using ih
     | tl th e => simpa [dispatches] using ih
+    | quiet => simpa [dispatches] using ih
 
 theorem pending_append (l l' : List AEv) (p : Option AOp) : pending (l ++ l') p = pending l' (pending l p) := by
   induction l generalizing p with
@@ -279,6 +281,15 @@ theorem step_inv {P : APlan} {c c' : Ctl} {l : List AEv} {lb : Lbl} {o : Option 
       simp only [optList, List.append_nil, jobOk]
       intro _
       exact traces_of_derivs hcur.2 hnull
+    · cases hs
+  | observe =>
+    obtain ⟨data, job, caller, n⟩ := c
+    cases caller <;> simp only [step] at hs <;> try (cases hs)
+    split at hs
+    · cases hs
+      exact inv_caller_only hi _ _ (by simp [optList, projD_append, projD]) trivial
+        (by simpa [optList, pending_append, pending, callerOp] using hi.pend)
+        (by simp [optList, dispatches_append, dispatches, spawnedBit])
     · cases hs
 
 theorem run_inv {P : APlan} {c : Ctl} {l : List AEv} (h : Run P c l) : Inv P c l := by
